@@ -968,11 +968,545 @@ Proof.
   assert (Hall : Forall plain_seg (e_prefix e ++ l0 :: L')) by (apply Forall_app; auto).
   assert (Hne : e_prefix e ++ l0 :: L' <> []) by (destruct (e_prefix e); discriminate).
   rewrite route_plain by assumption. rewrite Hs. unfold top_mux.
-  rewrite (mux_dispatch_plain _ (e_host e) (e_prefix e ++ l0 :: L') [] _ (HLog e) []); try assumption.
+  rewrite (mux_dispatch_plain _ (e_host e) (e_prefix e ++ l0 :: L') [] (lits (e_prefix e) ++ [PMulti false]) (HLog e) []); try assumption.
   - unfold top_handle. now rewrite strip_then_plain.
   - now apply top_tree_log.
   - right. exists (lits (e_prefix e) ++ [PMulti false]), (HLog e), [].
     rewrite <- app_assoc. cbn [app]. split; [now apply top_tree_log|]. split.
     + unfold last_multi. rewrite rev_app_distr. reflexivity.
     + rewrite !app_length. unfold lits. rewrite map_length. cbn [length]. lia.
+Qed.
+
+(* ===================================================================================== *)
+(* part 10: tile coordinates as path segments                                             *)
+(* ===================================================================================== *)
+
+Definition tile_first (t : tile) : bytes := if (t_L t =? -2)%Z then s2b "names" else lstr (t_L t).
+Definition tile_segs (t : tile) : list bytes := tile_first t :: xgroups 30 (t_N t) ++ tailf (t_N t) (t_W t).
+
+Lemma join_flat gs : forall rest, rest <> [] -> join_with x2f (gs ++ rest) = flat gs ++ join_with x2f rest.
+Proof.
+  induction gs as [|g gs IH]; intros rest Hr; [reflexivity|].
+  cbn [app]. destruct (gs ++ rest) as [|y ys] eqn:E.
+  - destruct gs; [cbn in E; congruence|discriminate].
+  - change (join_with x2f (g :: y :: ys)) with (g ++ x2f :: join_with x2f (y :: ys)).
+    rewrite <- E. rewrite (IH rest Hr). unfold flat. cbn [map concat]. rewrite <- !app_assoc. reflexivity.
+Qed.
+
+Lemma tailf_join n w : join_with x2f (tailf n w) = lastg n ++ wtail w.
+Proof.
+  unfold tailf, wtail. destruct (w =? 256)%Z.
+  - cbn [join_with]. now rewrite app_nil_r.
+  - cbn [join_with]. rewrite <- app_assoc. reflexivity.
+Qed.
+
+Lemma tailf_nonempty n w : tailf n w <> [].
+Proof. unfold tailf. destruct (w =? 256)%Z; discriminate. Qed.
+
+Lemma nstr_join n w : nstr n ++ wtail w = join_with x2f (xgroups 30 n ++ tailf n w).
+Proof.
+  rewrite join_flat by apply tailf_nonempty. rewrite tailf_join, nstr_spec. now rewrite <- app_assoc.
+Qed.
+
+Lemma valid_tile_inv t : valid_tile t = true ->
+  t_H t = 8%Z /\ (-2 <= t_L t < two63)%Z /\ (0 <= t_N t < two63)%Z /\ (1 <= t_W t <= 256)%Z.
+Proof. unfold valid_tile. rewrite !andb_true_iff. lia. Qed.
+
+Lemma tile_path_segs t : valid_tile t = true ->
+  tile_path t = Some (join_with x2f (seg_tile :: tile_segs t)).
+Proof.
+  intro Hv. destruct (valid_tile_inv t Hv) as (Hh & Hl & Hn & Hw). destruct t as [h l n w].
+  cbn [t_H t_L t_N t_W] in *. subst h. unfold tile_path, tile_segs, tile_first. cbn [t_H t_L t_N t_W].
+  change (negb (8 =? 8)%Z) with false. cbv iota.
+  assert (J : forall first, join_with x2f (seg_tile :: first :: xgroups 30 n ++ tailf n w)
+                      = seg_tile ++ x2f :: first ++ x2f :: join_with x2f (xgroups 30 n ++ tailf n w)).
+  { intro first. destruct (xgroups 30 n ++ tailf n w) eqn:E; [|reflexivity].
+    exfalso. destruct (xgroups 30 n); [now apply (tailf_nonempty n w)|discriminate]. }
+  destruct (Z.eqb_spec l (-2)).
+  - f_equal. rewrite tlog_path_8.
+    change (s2b "tile/8/" ++ lstr (-1) ++ x2f :: nstr n ++ wtail w) with (s2b "tile/8/data/" ++ nstr n ++ wtail w).
+    rewrite trim_prefix_app, J, nstr_join. reflexivity.
+  - f_equal. rewrite tlog_path_8, trim_prefix_app, J, <- nstr_join. reflexivity.
+Qed.
+
+Definition digit_plain (b : byte) : bool := implb (is_digit b) (plain_char b && negb (Byte.eqb b x2e) && negb (Byte.eqb b x69)).
+Lemma digit_sweep b : digit_plain b = true.
+Proof. destruct b; reflexivity. Qed.
+
+Lemma digit_facts b : is_digit b = true -> plain_char b = true /\ b <> x2e /\ b <> x69.
+Proof.
+  intro H. pose proof (digit_sweep b) as S. unfold digit_plain in S. rewrite H in S. cbn [implb] in S.
+  rewrite !andb_true_iff in S. destruct S as [[A B] C]. apply negb_true_iff in B, C.
+  repeat split; [assumption| |]; intro X; subst b; discriminate.
+Qed.
+
+Lemma alldig_plain s : alldig s -> plain s.
+Proof.
+  unfold alldig, plain. induction s as [|b s IH]; cbn [forallb]; [reflexivity|]. intro H.
+  apply andb_true_iff in H. destruct H as [H1 H2]. destruct (digit_facts b H1) as (A & _). now rewrite A, IH.
+Qed.
+
+(* a string that starts with a byte other than "." is not "." or ".." *)
+Lemma first_not_dot b r : b <> x2e -> plain (b :: r) -> plain_seg (b :: r).
+Proof.
+  intros Hb Hp. repeat split; [assumption|discriminate| |]; intro X; injection X as X _; contradiction.
+Qed.
+
+Lemma digits_plain_seg s : alldig s -> s <> [] -> plain_seg s /\ s <> index_html.
+Proof.
+  intros Hd Hne. destruct s as [|b r]; [congruence|].
+  assert (Hb : is_digit b = true) by (unfold alldig in Hd; cbn [forallb] in Hd; apply andb_true_iff in Hd; tauto).
+  destruct (digit_facts b Hb) as (_ & H1 & H2). split.
+  - apply first_not_dot; [assumption|now apply alldig_plain].
+  - intro X. injection X as X _. contradiction.
+Qed.
+
+Lemma plain_app a b : plain a -> plain b -> plain (a ++ b).
+Proof. unfold plain. intros A B. now rewrite forallb_app, A, B. Qed.
+
+Lemma lastg_seg n : plain_seg (lastg n) /\ lastg n <> index_html.
+Proof.
+  unfold lastg. destruct (group_facts (Z.to_N (n mod 1000))) as [A _]; [lia|].
+  apply digits_plain_seg; [assumption|].
+  destruct (pad3_nonempty (Z.to_N (n mod 1000))) as (b & r & E & _); [lia|]. rewrite E. discriminate.
+Qed.
+
+Lemma decZ_seg z : (0 <= z < two63)%Z -> plain_seg (decZ z) /\ decZ z <> index_html.
+Proof.
+  intro H. rewrite decZ_nonneg by lia.
+  destruct (dec_spec (Z.to_N z)) as (Hne & Hd & _); [unfold two63 in H; lia|].
+  now apply digits_plain_seg.
+Qed.
+
+Lemma xgroup_seg m : plain_seg (xgroup m).
+Proof.
+  unfold xgroup. apply first_not_dot; [discriminate|].
+  change (x78 :: pad3 (Z.to_N (m mod 1000))) with ([x78] ++ pad3 (Z.to_N (m mod 1000))).
+  apply plain_app; [reflexivity|]. apply alldig_plain. apply group_facts. lia.
+Qed.
+
+Lemma xgroups_seg fuel : forall n, Forall plain_seg (xgroups fuel n).
+Proof.
+  induction fuel as [|f IH]; intro n; cbn [xgroups]; [constructor|].
+  destruct (n >=? 1000)%Z; [|constructor].
+  apply Forall_app. split; [apply IH|]. constructor; [apply xgroup_seg|constructor].
+Qed.
+
+Lemma lstr_seg l : (-1 <= l < two63)%Z -> plain_seg (lstr l).
+Proof.
+  intro H. unfold lstr. destruct (Z.eqb_spec l (-1)); [concrete_plain|]. apply decZ_seg. lia.
+Qed.
+
+Lemma tailf_seg n w : (1 <= w <= 256)%Z ->
+  Forall plain_seg (tailf n w) /\ exists init l, tailf n w = init ++ [l] /\ l <> index_html.
+Proof.
+  intro Hw. unfold tailf. destruct (lastg_seg n) as [A B]. destruct (Z.eqb_spec w 256).
+  - split; [constructor; [assumption|constructor]|]. exists [], (lastg n). auto.
+  - destruct (decZ_seg w) as [C D]; [unfold two63; lia|]. split.
+    + constructor; [|constructor; [assumption|constructor]].
+      destruct (lastg n) as [|b r] eqn:E; [destruct A as (_ & X & _); congruence|].
+      cbn [app]. apply first_not_dot.
+      * intro X. subst b. destruct A as (_ & _ & A1 & A2).
+        destruct (group_facts (Z.to_N (n mod 1000))) as [G _]; [lia|]. unfold lastg in E. rewrite E in G.
+        unfold alldig in G. cbn [forallb] in G. apply andb_true_iff in G. destruct G as [G _]. discriminate G.
+      * change (b :: r ++ s2b ".p") with ((b :: r) ++ s2b ".p"). apply plain_app; [apply A|reflexivity].
+    + exists [lastg n ++ s2b ".p"], (decZ w). auto.
+Qed.
+
+Lemma tile_segs_facts t : valid_tile t = true ->
+  Forall plain_seg (tile_segs t) /\ exists init l, tile_segs t = init ++ [l] /\ l <> index_html.
+Proof.
+  intro Hv. destruct (valid_tile_inv t Hv) as (Hh & Hl & Hn & Hw). unfold tile_segs.
+  destruct (tailf_seg (t_N t) (t_W t) Hw) as [A (init & l & E & Hl')]. split.
+  - constructor.
+    + unfold tile_first. destruct (Z.eqb_spec (t_L t) (-2)); [concrete_plain|apply lstr_seg; lia].
+    + apply Forall_app. split; [apply xgroups_seg|assumption].
+  - exists (tile_first t :: xgroups 30 (t_N t) ++ init), l. split; [|assumption].
+    rewrite E. cbn [app]. now rewrite app_assoc.
+Qed.
+
+Lemma Some_inj {X} (a b : X) : Some a = Some b -> a = b.
+Proof. intro H. now injection H. Qed.
+
+Lemma tile_level_segs t : valid_tile t = true ->
+  tile_level (s2b "tile/" ++ join_with x2f (tile_segs t)) = t_L t.
+Proof.
+  intro Hv. destruct (path_roundtrip t Hv) as (s & Hs & Hp).
+  rewrite tile_path_segs in Hs by assumption. apply Some_inj in Hs. subst s.
+  unfold tile_level.
+  replace (s2b "tile/" ++ join_with x2f (tile_segs t)) with (join_with x2f (seg_tile :: tile_segs t)).
+  - now rewrite Hp.
+  - unfold tile_segs. reflexivity.
+Qed.
+
+(* ===================================================================================== *)
+(* part 11: C19_layout for logs                                                           *)
+(* ===================================================================================== *)
+
+(* what the theorems ask of a configured log: a host, a plain prefix, nothing shadowing it *)
+Definition log_ok (c : config) (e : entry) (host : bytes) : Prop :=
+  In e (c_logs c) /\ e_host e <> [] /\ strip_host_port host = e_host e /\
+  Forall plain_seg (e_prefix e) /\ log_unshadowed c e.
+
+Lemma layout_target P L : L <> [] -> prefix_path P ++ x2f :: join_with x2f L = prefix_path (P ++ L).
+Proof. intro H. rewrite prefix_path_app, (prefix_path_join L) by assumption. reflexivity. Qed.
+
+Theorem c19_layout_tile c e host t : log_ok c e host -> valid_tile t = true ->
+  exists s, tile_path t = Some s /\
+    route c host (prefix_path (e_prefix e) ++ x2f :: s)
+    = File (e_root e) (x2f :: s) (headers_for_level (t_L t)) (x2f :: s) [].
+Proof.
+  intros (Hin & Hh & Hs & HP & Hu) Hv. exists (join_with x2f (seg_tile :: tile_segs t)).
+  split; [now apply tile_path_segs|].
+  destruct (tile_segs_facts t Hv) as (Hpl & init & l & Hi & Hl).
+  rewrite layout_target by discriminate.
+  rewrite (top_mux_log c e (seg_tile :: tile_segs t) seg_tile (tile_segs t) host); auto.
+  2:{ constructor; [concrete_plain|assumption]. }
+  unfold tile_segs in *. change (@nil byte) with (prefix_path []) at 1.
+  rewrite (log_mux_tile c (e_root e) [] (e_host e) _ _ init l); auto.
+  cbn [app]. rewrite <- prefix_path_join by discriminate.
+  unfold tile_headers. fold (tile_segs t). rewrite tile_level_segs by assumption. reflexivity.
+Qed.
+
+Theorem c19_layout_checkpoint c e host : log_ok c e host ->
+  route c host (prefix_path (e_prefix e) ++ s2b "/checkpoint")
+  = File (e_root e) (s2b "/checkpoint") hs_checkpoint (s2b "/checkpoint") [].
+Proof.
+  intros (Hin & Hh & Hs & HP & Hu).
+  change (s2b "/checkpoint") with (x2f :: join_with x2f [seg_checkpoint]).
+  rewrite layout_target by discriminate.
+  rewrite (top_mux_log c e [seg_checkpoint] seg_checkpoint [] host); auto.
+  2:{ constructor; [concrete_plain|constructor]. }
+  change (@nil byte) with (prefix_path []) at 1. now rewrite log_mux_checkpoint.
+Qed.
+
+Theorem c19_layout_logjson c e host : log_ok c e host ->
+  route c host (prefix_path (e_prefix e) ++ s2b "/log.v3.json")
+  = File (e_root e) (s2b "/log.v3.json") hs_json (s2b "/log.v3.json") [].
+Proof.
+  intros (Hin & Hh & Hs & HP & Hu).
+  change (s2b "/log.v3.json") with (x2f :: join_with x2f [seg_logjson]).
+  rewrite layout_target by discriminate.
+  rewrite (top_mux_log c e [seg_logjson] seg_logjson [] host); auto.
+  2:{ constructor; [concrete_plain|constructor]. }
+  change (@nil byte) with (prefix_path []) at 1. now rewrite log_mux_logjson.
+Qed.
+
+Theorem c19_layout_issuer c e host fp : log_ok c e host -> plain_seg fp -> fp <> index_html ->
+  route c host (prefix_path (e_prefix e) ++ s2b "/issuer/" ++ fp)
+  = File (e_root e) (s2b "/issuer/" ++ fp) hs_issuer (s2b "/issuer/" ++ fp) [].
+Proof.
+  intros (Hin & Hh & Hs & HP & Hu) Hfp Hni.
+  change (s2b "/issuer/" ++ fp) with (x2f :: join_with x2f [seg_issuer; fp]).
+  rewrite layout_target by discriminate.
+  rewrite (top_mux_log c e [seg_issuer; fp] seg_issuer [fp] host); auto.
+  2:{ constructor; [concrete_plain|constructor; [assumption|constructor]]. }
+  change (@nil byte) with (prefix_path []) at 1. rewrite log_mux_issuer by auto.
+  cbn [app]. rewrite prefix_path_join by discriminate. reflexivity.
+Qed.
+
+(* ===================================================================================== *)
+(* part 12: C19_layout for witnesses and mirrors                                          *)
+(* ===================================================================================== *)
+
+Definition is_lower_hex (b : byte) : bool := in_range 48 57 b || in_range 97 102 b.
+(* the name of a log below a witness prefix: hex of a SHA-256, lower case *)
+Definition hash_seg (s : bytes) : bool := (length s =? 64)%nat && forallb is_lower_hex s.
+
+Definition hex_plain (b : byte) : bool := implb (is_lower_hex b) (plain_char b).
+Lemma hex_sweep b : hex_plain b = true.
+Proof. destruct b; reflexivity. Qed.
+
+Lemma hash_seg_plain o : hash_seg o = true -> plain_seg o /\ o <> index_html.
+Proof.
+  unfold hash_seg. rewrite andb_true_iff. intros [Hl Hh]. apply Nat.eqb_eq in Hl.
+  assert (Hp : plain o).
+  { unfold plain. rewrite forallb_forall in *. intros b Hb. specialize (Hh b Hb).
+    pose proof (hex_sweep b) as S. unfold hex_plain in S. now rewrite Hh in S. }
+  repeat split; try assumption; intro X; subst o; discriminate Hl.
+Qed.
+
+Definition harmless_wit (cd : @cand top_h) : bool :=
+  match fst cd with PLit x :: _ => negb (hash_seg x) | _ => false end.
+
+(* below the literal prefix Q of the host, exactly one registered pattern continues with a wildcard *)
+Definition wild_unshadowed (c : config) (host : bytes) (Q : list bytes) : Prop :=
+  length (filter (fun cd => negb (harmless_wit cd)) (residual (host_get c host) Q)) = 1%nat.
+
+(* exactly one registered pattern of the host is the literal path Q *)
+Definition leaf_unshadowed (c : config) (host : bytes) (Q : list bytes) : Prop :=
+  length (filter is_leaf (residual (host_get c host) Q)) = 1%nat.
+
+Lemma harmless_wit_other o (l : list (@cand top_h)) : hash_seg o = true ->
+  Forall (fun y => negb (harmless_wit y) = false) l -> Forall (fun cd => lit_other o cd = true) l.
+Proof.
+  intros Ho H. eapply Forall_impl; [|exact H]. intros cd Hc. apply negb_false_iff in Hc.
+  unfold harmless_wit in Hc. unfold lit_other. destruct (fst cd) as [|[y| |n] r]; try discriminate.
+  apply negb_true_iff in Hc. apply negb_true_iff.
+  destruct (bytes_eqb y o) eqn:E; [|reflexivity]. apply bytes_eqb_eq in E. subst y. congruence.
+Qed.
+
+Lemma top_tree_wild c hh Q h o r0 R :
+  In (mkPat true hh (lits Q ++ [PWild; PMulti false]) h) (top_patterns c) ->
+  hh <> [] -> Forall plain_seg Q -> wild_unshadowed c hh Q -> hash_seg o = true ->
+  tree_match (top_patterns c) hh (Q ++ o :: r0 :: R) = Some ((lits Q ++ [PWild; PMulti false], h), [o]).
+Proof.
+  intros Hin Hh HQ Hu Ho. apply tree_match_host; [assumption|].
+  apply match_path_consume; [assumption|].
+  set (full := lits Q ++ [PWild; PMulti false]).
+  set (x := ([PWild; PMulti false], (full, h)) : @cand top_h).
+  assert (Hx : In x (residual (class_of (top_patterns c) hh true) Q)).
+  { apply residual_keeps. exact (class_of_intro _ _ Hin). }
+  destruct (unique_split _ _ x Hx eq_refl Hu) as (l1 & l2 & E & Hoth).
+  unfold host_get in E. rewrite E. unfold x.
+  destruct (hash_seg_plain o Ho) as [Hop _].
+  etransitivity; [apply (step_wild l1 l2 [PMulti false] (full, h) o (r0 :: R) []);
+                  [assumption|now apply harmless_wit_other]|].
+  apply (match_path_multi false (full, h) r0 R ([] ++ [o])).
+Qed.
+
+Lemma find_skip {X} (f : X -> bool) l1 x l2 :
+  Forall (fun y => f y = false) l1 -> f x = true -> find f (l1 ++ x :: l2) = Some x.
+Proof.
+  induction 1 as [|y l Hy Hl IH]; intro Hx; cbn [app find]; [now rewrite Hx|]. rewrite Hy. now apply IH.
+Qed.
+
+Lemma top_tree_leaf c hh Q h :
+  In (mkPat true hh (lits Q) h) (top_patterns c) ->
+  hh <> [] -> Forall plain_seg Q -> leaf_unshadowed c hh Q ->
+  tree_match (top_patterns c) hh Q = Some ((lits Q, h), []).
+Proof.
+  intros Hin Hh HQ Hu. apply tree_match_host; [assumption|].
+  rewrite <- (app_nil_r Q) at 1. apply match_path_consume; [assumption|].
+  set (x := ([], (lits Q, h)) : @cand top_h).
+  assert (Hx : In x (residual (class_of (top_patterns c) hh true) Q)).
+  { apply residual_keeps. rewrite app_nil_r. exact (class_of_intro _ _ Hin). }
+  destruct (unique_split _ _ x Hx eq_refl Hu) as (l1 & l2 & E & Hoth).
+  unfold host_get in E. rewrite E. cbn [match_path].
+  apply Forall_app in Hoth. destruct Hoth as [H1 _].
+  rewrite (find_skip is_leaf l1 x l2 H1 eq_refl). reflexivity.
+Qed.
+
+Lemma lits_app a b : lits (a ++ b) = lits a ++ lits b.
+Proof. unfold lits. apply map_app. Qed.
+
+Lemma last_multi_lits Q : last_multi (lits Q) = false.
+Proof.
+  unfold last_multi, lits. rewrite <- map_rev. destruct (rev Q); reflexivity.
+Qed.
+
+Lemma prefix_path_one s : prefix_path [s] = x2f :: s.
+Proof. unfold prefix_path. cbn [map concat]. now rewrite app_nil_r. Qed.
+
+Definition seg_mirror := s2b "mirror".
+Definition seg_witness_json := s2b "witness.v0.json".
+Definition seg_mirror_json := s2b "mirror.v0.json".
+
+(* what the theorems ask of a configured witness *)
+Definition wit_ok (c : config) (e : entry) (host : bytes) : Prop :=
+  In e (c_wits c) /\ e_host e <> [] /\ strip_host_port host = e_host e /\ Forall plain_seg (e_prefix e).
+
+(* generic: a "{origin}/" subtree below the literal prefix Q, files re-prefixed with F ++ [origin] *)
+Lemma route_wild_subtree c e host Q F h o L r0 R :
+  wit_ok c e host ->
+  In (mkPat true (e_host e) (lits Q ++ [PWild; PMulti false]) h) (top_patterns c) ->
+  Forall plain_seg Q -> wild_unshadowed c (e_host e) Q -> hash_seg o = true ->
+  L = r0 :: R -> Forall plain_seg L ->
+  (forall p rp qs ms, top_handle c (e_host e) p rp qs h ms =
+     strip_then (prefix_path Q ++ x2f :: nth 0 ms []) p rp hs0
+       (fun p' rp' => log_mux c (e_root e) (prefix_path F ++ x2f :: nth 0 ms []) (e_host e) p' rp' qs)) ->
+  route c host (prefix_path (Q ++ o :: L))
+  = log_mux c (e_root e) (prefix_path (F ++ [o])) (e_host e) (prefix_path L) [] [].
+Proof.
+  intros (Hin & Hh & Hs & HP) Hpat HQ Hu Ho -> HL Hhandle.
+  destruct (hash_seg_plain o Ho) as [Hop _].
+  assert (Hall : Forall plain_seg (Q ++ o :: r0 :: R)) by (apply Forall_app; split; [assumption|now constructor]).
+  assert (Hne : Q ++ o :: r0 :: R <> []) by (destruct Q; discriminate).
+  rewrite route_plain by assumption. rewrite Hs. unfold top_mux.
+  rewrite (mux_dispatch_plain _ (e_host e) (Q ++ o :: r0 :: R) [] (lits Q ++ [PWild; PMulti false]) h [o]); try assumption.
+  - rewrite Hhandle. cbn [nth].
+    replace (prefix_path Q ++ x2f :: o) with (prefix_path (Q ++ [o])) by (now rewrite prefix_path_app, prefix_path_one).
+    replace (Q ++ o :: r0 :: R) with ((Q ++ [o]) ++ r0 :: R) by (now rewrite <- app_assoc).
+    rewrite strip_then_plain. now rewrite prefix_path_app, prefix_path_one.
+  - now apply top_tree_wild.
+  - right. exists (lits Q ++ [PWild; PMulti false]), h, [o].
+    rewrite <- app_assoc. cbn [app]. split; [now apply top_tree_wild|]. split.
+    + unfold last_multi. rewrite rev_app_distr. reflexivity.
+    + rewrite !app_length. unfold lits. rewrite map_length. cbn [length]. lia.
+Qed.
+
+Lemma In_wit_origin c e : In e (c_wits c) ->
+  In (mkPat true (e_host e) (lits (e_prefix e) ++ [PWild; PMulti false]) (HWitOrigin e)) (top_patterns c).
+Proof. intro H. apply (In_top_wit c e _ H). cbn. auto. Qed.
+
+Lemma In_wit_mirror c e : In e (c_wits c) ->
+  In (mkPat true (e_host e) (lits (e_prefix e ++ [seg_mirror]) ++ [PWild; PMulti false]) (HWitMirror e)) (top_patterns c).
+Proof.
+  intro H. apply (In_top_wit c e _ H). rewrite lits_app, <- app_assoc. cbn. auto.
+Qed.
+
+Theorem c19_layout_witness_checkpoint c e host o :
+  wit_ok c e host -> wild_unshadowed c (e_host e) (e_prefix e) -> hash_seg o = true ->
+  route c host (prefix_path (e_prefix e) ++ x2f :: o ++ s2b "/checkpoint")
+  = File (e_root e) (x2f :: o ++ s2b "/checkpoint") hs_checkpoint (x2f :: o ++ s2b "/checkpoint") [].
+Proof.
+  intros Hok Hu Ho. pose proof Hok as (Hin & Hh & Hs & HP).
+  destruct (hash_seg_plain o Ho) as [Hop _].
+  assert (E : x2f :: o ++ s2b "/checkpoint" = prefix_path [o; seg_checkpoint])
+    by (unfold prefix_path; cbn [map concat]; now rewrite app_nil_r).
+  rewrite E, <- prefix_path_app.
+  rewrite (route_wild_subtree c e host (e_prefix e) [] (HWitOrigin e) o [seg_checkpoint] seg_checkpoint []); auto.
+  - rewrite log_mux_checkpoint by (constructor; [assumption|constructor]). reflexivity.
+  - now apply In_wit_origin.
+  - constructor; [concrete_plain|constructor].
+Qed.
+
+Theorem c19_layout_mirror_checkpoint c e host o :
+  wit_ok c e host -> wild_unshadowed c (e_host e) (e_prefix e ++ [seg_mirror]) -> hash_seg o = true ->
+  route c host (prefix_path (e_prefix e) ++ s2b "/mirror/" ++ o ++ s2b "/checkpoint")
+  = File (e_root e) (s2b "/mirror/" ++ o ++ s2b "/checkpoint") hs_checkpoint (s2b "/mirror/" ++ o ++ s2b "/checkpoint") [].
+Proof.
+  intros Hok Hu Ho. pose proof Hok as (Hin & Hh & Hs & HP).
+  destruct (hash_seg_plain o Ho) as [Hop _].
+  assert (Hm : plain_seg seg_mirror) by concrete_plain.
+  assert (E : s2b "/mirror/" ++ o ++ s2b "/checkpoint" = prefix_path [seg_mirror; o; seg_checkpoint])
+    by (unfold prefix_path; cbn [map concat]; now rewrite app_nil_r).
+  rewrite E, <- prefix_path_app.
+  replace (e_prefix e ++ [seg_mirror; o; seg_checkpoint]) with ((e_prefix e ++ [seg_mirror]) ++ o :: [seg_checkpoint])
+    by (now rewrite <- app_assoc).
+  rewrite (route_wild_subtree c e host (e_prefix e ++ [seg_mirror]) [seg_mirror] (HWitMirror e) o [seg_checkpoint] seg_checkpoint []); auto.
+  - rewrite log_mux_checkpoint by (constructor; [assumption|constructor; [assumption|constructor]]). reflexivity.
+  - now apply In_wit_mirror.
+  - apply Forall_app. split; [assumption|constructor; [assumption|constructor]].
+  - constructor; [concrete_plain|constructor].
+  - intros p rp qs ms. unfold top_handle. cbv zeta.
+    rewrite prefix_path_app, !prefix_path_one, <- !app_assoc. reflexivity.
+Qed.
+
+Theorem c19_layout_mirror_tile c e host o t :
+  wit_ok c e host -> wild_unshadowed c (e_host e) (e_prefix e ++ [seg_mirror]) -> hash_seg o = true ->
+  valid_tile t = true ->
+  exists s, tile_path t = Some s /\
+    route c host (prefix_path (e_prefix e) ++ s2b "/mirror/" ++ o ++ x2f :: s)
+    = File (e_root e) (s2b "/mirror/" ++ o ++ x2f :: s) (headers_for_level (t_L t)) (s2b "/mirror/" ++ o ++ x2f :: s) [].
+Proof.
+  intros Hok Hu Ho Hv. pose proof Hok as (Hin & Hh & Hs & HP).
+  exists (join_with x2f (seg_tile :: tile_segs t)). split; [now apply tile_path_segs|].
+  destruct (hash_seg_plain o Ho) as [Hop _].
+  destruct (tile_segs_facts t Hv) as (Hpl & init & l & Hi & Hl).
+  assert (Hm : plain_seg seg_mirror) by concrete_plain.
+  assert (E : s2b "/mirror/" ++ o ++ x2f :: join_with x2f (seg_tile :: tile_segs t)
+              = prefix_path ([seg_mirror; o] ++ seg_tile :: tile_segs t)).
+  { rewrite prefix_path_app, (prefix_path_join (seg_tile :: tile_segs t)) by discriminate.
+    unfold prefix_path at 1. cbn [map concat]. now rewrite app_nil_r, <- app_assoc. }
+  rewrite E, <- prefix_path_app.
+  replace (e_prefix e ++ [seg_mirror; o] ++ seg_tile :: tile_segs t)
+    with ((e_prefix e ++ [seg_mirror]) ++ o :: seg_tile :: tile_segs t) by (now rewrite <- app_assoc).
+  rewrite (route_wild_subtree c e host (e_prefix e ++ [seg_mirror]) [seg_mirror] (HWitMirror e) o
+             (seg_tile :: tile_segs t) seg_tile (tile_segs t)); auto.
+  - unfold tile_segs in *.
+    rewrite (log_mux_tile c (e_root e) [seg_mirror; o] (e_host e) _ _ init l); auto;
+      try (constructor; [assumption|constructor; [assumption|constructor]]).
+    unfold tile_headers. fold (tile_segs t). rewrite tile_level_segs by assumption. reflexivity.
+  - now apply In_wit_mirror.
+  - apply Forall_app. split; [assumption|constructor; [assumption|constructor]].
+  - constructor; [concrete_plain|assumption].
+  - intros p rp qs ms. unfold top_handle. cbv zeta.
+    rewrite prefix_path_app, !prefix_path_one, <- !app_assoc. reflexivity.
+Qed.
+
+(* the metadata files *)
+Lemma route_meta c e host Q name h :
+  wit_ok c e host ->
+  In (mkPat true (e_host e) (lits (e_prefix e ++ Q ++ [name])) h) (top_patterns c) ->
+  Forall plain_seg (Q ++ [name]) -> name <> index_html -> leaf_unshadowed c (e_host e) (e_prefix e ++ Q ++ [name]) ->
+  (forall p rp qs ms, top_handle c (e_host e) p rp qs h ms =
+     strip_then (prefix_path (e_prefix e)) p rp hs_json (fun p' _ => file_server (e_root e) p' qs hs_json)) ->
+  route c host (prefix_path (e_prefix e ++ Q ++ [name]))
+  = File (e_root e) (prefix_path (Q ++ [name])) hs_json (prefix_path (Q ++ [name])) [].
+Proof.
+  intros (Hin & Hh & Hs & HP) Hpat HQ Hn Hu Hhandle.
+  assert (Hall : Forall plain_seg (e_prefix e ++ Q ++ [name])) by (apply Forall_app; auto).
+  assert (Hne : e_prefix e ++ Q ++ [name] <> []) by (destruct (e_prefix e); [destruct Q; discriminate|discriminate]).
+  rewrite route_plain by assumption. rewrite Hs. unfold top_mux.
+  rewrite (mux_dispatch_plain _ (e_host e) (e_prefix e ++ Q ++ [name]) [] (lits (e_prefix e ++ Q ++ [name])) h []); try assumption.
+  - rewrite Hhandle, strip_then_plain.
+    rewrite <- (app_nil_l (prefix_path (Q ++ [name]))) at 1. change (@nil byte) with (prefix_path []) at 1.
+    apply (file_server_plain (e_root e) [] (Q ++ [name]) hs_json name Q); auto.
+    destruct Q; discriminate.
+  - now apply top_tree_leaf.
+  - left. apply last_multi_lits.
+Qed.
+
+Theorem c19_layout_witness_json c e host :
+  wit_ok c e host -> leaf_unshadowed c (e_host e) (e_prefix e ++ [seg_witness_json]) ->
+  route c host (prefix_path (e_prefix e) ++ s2b "/witness.v0.json")
+  = File (e_root e) (s2b "/witness.v0.json") hs_json (s2b "/witness.v0.json") [].
+Proof.
+  intros Hok Hu. pose proof Hok as (Hin & Hh & Hs & HP).
+  change (s2b "/witness.v0.json") with (x2f :: join_with x2f [seg_witness_json]).
+  rewrite layout_target by discriminate. rewrite <- prefix_path_join by discriminate.
+  apply (route_meta c e host [] seg_witness_json (HWitMeta e)); auto.
+  - apply (In_top_wit c e _ Hin). cbn [app]. rewrite lits_app. cbn. auto.
+  - constructor; [concrete_plain|constructor].
+  - discriminate.
+Qed.
+
+Theorem c19_layout_mirror_json c e host :
+  wit_ok c e host -> leaf_unshadowed c (e_host e) (e_prefix e ++ [seg_mirror; seg_mirror_json]) ->
+  route c host (prefix_path (e_prefix e) ++ s2b "/mirror/mirror.v0.json")
+  = File (e_root e) (s2b "/mirror/mirror.v0.json") hs_json (s2b "/mirror/mirror.v0.json") [].
+Proof.
+  intros Hok Hu. pose proof Hok as (Hin & Hh & Hs & HP).
+  change (s2b "/mirror/mirror.v0.json") with (x2f :: join_with x2f [seg_mirror; seg_mirror_json]).
+  rewrite layout_target by discriminate. rewrite <- prefix_path_join by discriminate.
+  apply (route_meta c e host [seg_mirror] seg_mirror_json (HMirMeta e)); auto.
+  - apply (In_top_wit c e _ Hin). cbn [app]. rewrite lits_app. cbn. auto.
+  - constructor; [concrete_plain|constructor; [concrete_plain|constructor]].
+  - discriminate.
+Qed.
+
+(* ===================================================================================== *)
+(* part 13: successful responses, the header table                                        *)
+(* ===================================================================================== *)
+
+(* a 200 is always a stored regular file (never a directory, a listing, or anything outside
+   the table of the root), served with exactly the headers the handler chose *)
+Theorem c19_success t r :
+  r_status (respond t r) = 200 ->
+  exists root rel hs up qs d,
+    r = File root rel hs up qs /\ fs_lookup t root (tl rel) = Some (KReg d) /\
+    respond t r = mkResp 200 [] (h_ct hs) (h_ce hs) (h_cc hs) (h_acao hs) (Some d).
+Proof.
+  destruct r as [| |hs|found loc hs html|k|root rel hs up qs]; cbn [respond error_resp r_status];
+    try discriminate.
+  - destruct found; discriminate.
+  - destruct k; discriminate.
+  - unfold fs_open.
+    destruct (is_nil (tl rel)); [discriminate|].
+    destruct (negb (valid_name (tl rel))).
+    { destruct (match split_slash (tl rel) with f :: _ :: _ => _ | _ => false end); discriminate. }
+    destruct (fs_lookup t root (tl rel)) as [[d| |]|] eqn:E.
+    + destruct (last_is_slash up).
+      * destruct (bytes_eqb (path_base up) [x2f] || bytes_eqb (path_base up) dot); discriminate.
+      * intros _. exists root, rel, hs, up, qs, d. auto.
+    + discriminate.
+    + discriminate.
+    + destruct (existsb _ (proper_prefixes (tl rel))).
+      { destruct (match split_slash (tl rel) with f :: _ :: _ => _ | _ => false end); discriminate. }
+      destruct (existsb _ (proper_prefixes (tl rel))); discriminate.
+Qed.
+
+Theorem c19_headers :
+  (forall l, (0 <= l)%Z ->
+     headers_for_level l = mkHs (s2b "application/octet-stream") [] (s2b "public, max-age=604800, immutable") true) /\
+  headers_for_level (-1) = mkHs (s2b "application/octet-stream") (s2b "gzip") (s2b "public, max-age=604800, immutable") true /\
+  headers_for_level (-2) = mkHs (s2b "application/jsonl; charset=utf-8") (s2b "gzip") (s2b "public, max-age=604800, immutable") true /\
+  hs_issuer = mkHs (s2b "application/pkix-cert") [] (s2b "public, max-age=604800, immutable") true /\
+  hs_checkpoint = mkHs (s2b "text/plain; charset=utf-8") [] (s2b "no-store") true /\
+  hs_json = mkHs (s2b "application/json") [] [] true.
+Proof.
+  repeat split; try reflexivity.
+  intros l Hl. unfold headers_for_level.
+  destruct (Z.eqb_spec l (-1)); [lia|]. destruct (Z.eqb_spec l (-2)); [lia|]. reflexivity.
 Qed.
